@@ -866,13 +866,14 @@ class AsyncFIXConnection:
                 # Possibly interval Heartbeat, just skip
                 return
 
-            # Expecting test_req_id
+            # Expecting test_req_id: the very string that was sent ("+5", "05", "5 "
+            #  are other strings, whatever int() makes of them)
             try:
-                msg_test_id = int(hbt_msg.get(FTag.TestReqID, "0"))
+                msg_test_id = hbt_msg.get(FTag.TestReqID, "")
             except Exception:
-                msg_test_id = 0
+                msg_test_id = ""
 
-            if self._test_req_id != msg_test_id:
+            if str(self._test_req_id) != msg_test_id:
                 await self.disconnect(
                     ConnectionState.DISCONNECTED_BROKEN_CONN,
                     logout_message="Invalid TestRequest(TestReqID) received",
